@@ -15,4 +15,6 @@ Coefs_quick    == {<<2, -3>>}
 Coefs_thorough == {<<2, -3>>, <<1, 1>>, <<-1, 4>>}
 Shifts_quick    == {<<5, -3, 2, -8>>}
 Shifts_thorough == {<<5, -3, 2, -8>>, <<-11, 0, 6, 1>>}
+Scales_quick    == {3}
+Scales_thorough == {2, 3}
 =============================================================================
